@@ -165,8 +165,16 @@ def _offcurve_cases(S, fam, env):
         if not S.E2.on_curve(bq):
             for lam in ([(1, 0)] if fam == "ref" else [(1, 0), (2, 5)]):
                 out.append(("Q:%s:lam%s" % (lbl, lam[1]), S.pt2(fam, bq, lam), S.pt1(fam, S.G1)))
-    # both infinity-free checks with G1 point passed where G2 is expected are type errors, not
-    # in the statement; not generated.
+    # an off-curve argument whose PARTNER is the point at infinity (every representative): the
+    # refusal must not depend on the order of the infinity shortcut and the curve checks
+    for lbl, bp in badP[:2]:
+        if not S.E1.on_curve(bp):
+            for i, z in enumerate(S.inf2(fam)):
+                out.append(("P:%s:partner-infinity#%d" % (lbl, i), z, S.pt1(fam, bp)))
+    for lbl, bq in badQ[:2]:
+        if not S.E2.on_curve(bq):
+            for i, z in enumerate(S.inf1(fam)):
+                out.append(("Q:%s:partner-infinity#%d" % (lbl, i), S.pt2(fam, bq), z))
     return out
 
 
